@@ -679,7 +679,7 @@ def _cycle_histories():
         ("simple:3-cycles-x-4-steps-defaults", h(nCycles=3, burnSteps=4, cycleLength=100.0, availabilityFactor=0.9), None),
         ("simple:per-cycle-lists-with-R-shorthand", h(nCycles=3, burnSteps=2, cycleLengths=[100.0, "2R"], availabilityFactors=[0.5, "R2"], powerFractions=[1.0, 0.5, 0.0]), None),
         ("simple:1-cycle-zero-burn-steps", h(nCycles=1, burnSteps=0, cycleLength=10.0), None),
-        ("simple:3-cycles-zero-burn-steps", h(nCycles=3, burnSteps=0, cycleLength=10.0), ("getBurnSteps", "getStepLengths", "getNodesPerCycle")),
+        ("simple:3-cycles-zero-burn-steps", h(nCycles=3, burnSteps=0, cycleLength=10.0), None),  # was a defect of the tree (one step list for three cycles): repaired by F104
         ("detailed:step-days|R-step-days-default-fractions|cumulative-days|burn-steps+length", h(nCycles=4, cycles=[
             {"step days": ["1", "2"], "power fractions": ["0.5", "0.6"]},
             {"step days": ["3", "R4"]},
@@ -871,6 +871,6 @@ def run(idx, chk):
     chk.run_rule("R15.18", "couplingIsActive answers from the tightCoupling setting alone", lambda r: r18_coupling_switch(idx, r), floor=2,
                  necessary="every enabled interface gets its coupled interaction at every node when coupling is on")
     chk.run_rule("R15.19", "cycle-history helpers evaluated on eight histories: per cycle as many step lengths and power fractions as burn steps, burn steps + 1 nodes, steps sum to availability x length",
-                 lambda r: r19_history_evaluated(idx, r), floor=37,
+                 lambda r: r19_history_evaluated(idx, r), floor=40,
                  necessary="'every time node from the start node to the last' of every cycle history (simple and detailed, R shorthand, default power fractions) has its step length and power fraction; "
                            "nodes are numbered in the order a run visits them; step lengths sum to availability times cycle length")
